@@ -192,7 +192,13 @@ class time_zone {
   template <typename D>
   bool prev_transition(const time_point<D>& tp,
                        civil_transition* trans) const {
-    return prev_transition(detail::split_seconds(tp).first, trans);
+    // A transition at the whole second of tp is still before tp when tp
+    // has a sub-second part, so round up rather than down.
+    const auto p = detail::split_seconds(tp);
+    if (p.second > D::zero() && p.first < time_point<seconds>::max()) {
+      return prev_transition(p.first + seconds(1), trans);
+    }
+    return prev_transition(p.first, trans);
   }
 
   // version() and description() provide additional information about the
